@@ -201,20 +201,20 @@ func makeAccumulatorFunc(expr parser.ItemType) (newAccumulatorFunc, error) {
 		}, nil
 	case "avg":
 		return func() *accumulator {
-			var count, sum float64
+			var count, mean float64
 			var hasValue bool
 
 			return &accumulator{
 				AddFunc: func(v float64) {
 					hasValue = true
 					count += 1
-					sum += v
+					mean = addToMean(mean, count, v)
 				},
-				ValueFunc: func() float64 { return sum / count },
+				ValueFunc: func() float64 { return mean },
 				HasValue:  func() bool { return hasValue },
 				Reset: func(_ float64) {
 					hasValue = false
-					sum = 0
+					mean = 0
 					count = 0
 				},
 			}
@@ -321,6 +321,24 @@ func makeAccumulatorFunc(expr parser.ItemType) (newAccumulatorFunc, error) {
 	}
 	msg := fmt.Sprintf("unknown aggregation function %s", t)
 	return nil, errors.Wrap(parse.ErrNotSupportedExpr, msg)
+}
+
+// addToMean returns the mean of count values given the mean of the first count-1 values
+// and the last value. Like the reference engine it works on the mean itself so that
+// large values do not overflow, and keeps an infinite mean when a finite value is added.
+func addToMean(mean, count, v float64) float64 {
+	if count == 1 {
+		return v
+	}
+	if math.IsInf(mean, 0) {
+		if math.IsInf(v, 0) && (mean > 0) == (v > 0) {
+			return mean
+		}
+		if !math.IsInf(v, 0) && !math.IsNaN(v) {
+			return mean
+		}
+	}
+	return mean + (v/count - mean/count)
 }
 
 func quantile(q float64, points []float64) float64 {
